@@ -31,6 +31,12 @@ def cases(seed, tier):
         out.append({"group": "extra", "kind": ["nonlinear_loss", "chained"][i % 2], "seed": sub_seed(seed, "c13ls", i), "n": rng.choice([3, 7, 20]),
                     "holder": "em", "fam": rng.choice(["expdecay", "sinamp", "rational"]), "limits": rng.choice(["t0g", "t1g", "t0g", "t0"]),
                     "loss": rng.choice(["square", "exp", "product"]), "late_rebind": True})
+    # parameters of DIFFERENT precision (a float32 tensor listed before / after a float64 one): the backward rule must run in the precision of
+    # the forward rule whatever the order of the parameters
+    for i in range(24 if tier == "quick" else 240):
+        rng = random.Random(sub_seed(seed, "c13m", i))
+        out.append({"group": "extra", "kind": "mixdtype", "seed": sub_seed(seed, "c13ms", i), "n": rng.choice([7, 20, 40]), "f32first": i % 2 == 0,
+                    "limits": rng.choice(["num", "t0"]), "holder": "explicit", "fam": "expdecay", "loss": "square"})
     # history: a backward pass in which the integrand raises (at a seeded evaluation), caught; the same object used again
     na = 36 if tier == "quick" else 360
     for i in range(na):
@@ -68,7 +74,49 @@ def _loss(kind, y):
     return y.prod() + y.sum()
 
 
+def run_mixdtype(desc):
+    from xitorch.integrate import quad
+    obs = Obs(desc)
+    tg = torch.Generator().manual_seed(desc["seed"])
+    n = desc["n"]
+    s32 = (0.5 + torch.rand(2, generator=tg, dtype=torch.float32)).requires_grad_()
+    b = (0.4 * torch.randn(2, generator=tg, dtype=DT)).requires_grad_()
+    xl, xu = 0.0, 1.0
+    if desc["limits"] == "t0":
+        xl, xu = torch.tensor(0.0, dtype=DT), torch.tensor(1.0, dtype=DT)
+    if desc["f32first"]:
+        fcn, params = (lambda x, s_, b_: s_.double() * torch.exp(3 * b_ * x)), (s32, b)
+    else:
+        fcn, params = (lambda x, b_, s_: s_.double() * torch.exp(3 * b_ * x)), (b, s32)
+    mech = "mixdtype:%s:%s" % ("f32first" if desc["f32first"] else "f64first", desc["limits"])
+    try:
+        y = quad(fcn, xl, xu, params=params, n=n)
+        C = torch.randn(y.shape, generator=tg, dtype=DT)
+        gb, gs = torch.autograd.grad((y * C).sum(), (b, s32))
+    except Exception as e:
+        obs.exc_violation("extra:" + mech, e)
+        obs.nontrivial = True
+        return obs.result()
+    xs, ws = _rule(n, torch.tensor(0.0, dtype=DT), torch.tensor(1.0, dtype=DT))
+    b2, s2 = b.detach().clone().requires_grad_(), s32.detach().double().requires_grad_()
+    yr = sum(w * s2 * torch.exp(3 * b2 * x) for x, w in zip(xs, ws))
+    gbr, gsr = torch.autograd.grad((yr * C).sum(), (b2, s2))
+    obs.check(y.dtype == DT, "extra:dtype:" + mech, "float64 integrand but the result is %s" % y.dtype)
+    err = float((y.detach().double() - yr.detach()).abs().max())
+    obs.check(err <= 1e-13 * (1 + float(yr.detach().abs().max())), "extra:value:" + mech, "value differs from the same rule by %.3e" % err)
+    errb = float((gb.double() - gbr).abs().max())
+    obs.check(errb <= 1e-12 * (1 + float(gbr.abs().max())), "extra:grad_f64:" + mech,
+              "gradient w.r.t. the float64 parameter differs from the same rule's by %.3e (a float32 parameter is listed %s it)" % (errb, "before" if desc["f32first"] else "after"))
+    errs = float((gs.double() - gsr).abs().max())
+    obs.check(errs <= 1e-6 * (1 + float(gsr.abs().max())), "extra:grad_f32:" + mech, "gradient w.r.t. the float32 parameter differs by %.3e" % errs)
+    obs.count("extra_mixdtype_compared")
+    obs.nontrivial = True
+    return obs.result()
+
+
 def run_case(desc):
+    if desc.get("kind") == "mixdtype":
+        return run_mixdtype(desc)
     import xitorch
     from xitorch.integrate import quad
     obs = Obs(desc)
